@@ -49,6 +49,9 @@ func (ec *evalCtx) mapLeafRead(m *MapV, t types.Type, prefix string, k *Term) Va
 		panic(unsupported("map leaf %q", prefix))
 	}
 	raw := Select(arr, k)
+	if _, isFn := t.Underlying().(*types.Signature); isFn {
+		return &FuncV{Name: "map element", Id: raw, Cands: m.Cands}
+	}
 	switch t.Underlying().(type) {
 	case *types.Pointer:
 		panic(unsupported("map with pointer values"))
@@ -59,7 +62,7 @@ func (ec *evalCtx) mapLeafRead(m *MapV, t types.Type, prefix string, k *Term) Va
 }
 
 func (ec *evalCtx) mapSet(m *MapV, k *Term, v Value) *MapV {
-	n := &MapV{Ref: m.Ref, Dom: Store(m.Dom, k, True), Val: map[string]*Term{}, K: m.K, Elem: m.Elem}
+	n := &MapV{Ref: m.Ref, Dom: Store(m.Dom, k, True), Val: map[string]*Term{}, K: m.K, Elem: m.Elem, Cands: m.Cands}
 	for name, arr := range m.Val {
 		n.Val[name] = arr
 	}
